@@ -846,6 +846,9 @@ def classify(kind, A):
     -> 'valid' | 'malformed:<why>' | 'band' (within a factor 3 of a tolerance: not generated / skipped)."""
     import numpy as np
     A = np.asarray(A)
+    if A.dtype.kind in "biufc" and A.dtype != np.complex128:
+        with np.errstate(all="ignore"):
+            A = A.astype(np.complex128)      # the VALUES decide (Gram matrices of int8 / float16 arrays wrap or round in their dtype)
     if kind == "dense":
         n = len(A)
         if A.ndim != 1:
@@ -1322,6 +1325,15 @@ def isometry_components(ctx, nprng):
                 for imag in (True, False):
                     comp = "imaginary off-diagonal only" if imag else "real off-diagonal only"
                     out.append((f"bv:component:isometry:{comp}|t={t:g} at ({i},{j}) {r}x{c}", _overlap_cols(V, i, j, t, imag)))
+    # narrow numpy dtypes in which the Gram matrix WRAPS or ROUNDS to the identity although the values are far from an isometry
+    # (16*16 + 1 = 257 = 1 mod 256; 0.707^2 * 2 = 0.99979 -> 1.0 in half precision): validation must look at the values
+    out.append(("bv:component:isometry:narrow dtype|int8 [[16,1],[-1,16]] 2x2", np.array([[16, 1], [-1, 16]], dtype=np.int8)))
+    out.append(("bv:component:isometry:narrow dtype|uint8 columns (16,1,0,0),(0,0,16,1) 4x2",
+                np.array([[16, 0], [1, 0], [0, 16], [0, 1]], dtype=np.uint8)))
+    out.append(("bv:component:isometry:narrow dtype|int8 column (16,1,0,0) 4x1", np.array([[16], [1], [0], [0]], dtype=np.int8)))
+    out.append(("bv:component:isometry:narrow dtype|float16 column (0.707,0.707) 2x1", np.array([[0.707], [0.707]], dtype=np.float16)))
+    out.append(("bv:component:isometry:narrow dtype|float16 [[0.707,0.707],[0.707,-0.707]] 2x2",
+                np.array([[0.707, 0.707], [0.707, -0.707]], dtype=np.float16)))
     return out
 
 
